@@ -6,8 +6,10 @@ set -u
 name=$1; wt=$2
 export PATH=/root/go/pkg/mod/golang.org/toolchain@v0.0.1-go1.26.0.linux-amd64/bin:$PATH GOTOOLCHAIN=local GOFLAGS=-mod=mod GOPROXY=off GOSUMDB=off
 cd "$wt" || exit 2
-git checkout -q -- . ; git clean -fdq -e _seed
+git reset -q; git checkout -q -- . ; git clean -fdq -e _seed
 seed=$wt/_seed
+# keep a copy of the deliverables outside the worktree so a failed confirmation never loses them
+mkdir -p /var/tmp/seed-inbox/$name && cp -r $seed/* /var/tmp/seed-inbox/$name/
 pkgdir=$(python3 -c "import json;print(json.load(open('$seed/meta.json'))['demo_pkg_dir'])")
 demos=$(python3 -c "import json;print(' '.join(json.load(open('$seed/meta.json'))['demo_files']))")
 log=/tmp/seedcheck-$name.log; : > $log
@@ -26,7 +28,7 @@ echo "== existing tests of touched packages with change: $pkgs" >>$log
 go test -vet=off -count=1 -timeout 900s $pkgs >>$log 2>&1; tests=$?
 echo "== demo with change" >>$log
 run_demo; fail_with=$?
-git checkout -q -- . ; git clean -fdq -e _seed
+git reset -q; git checkout -q -- . ; git clean -fdq -e _seed
 echo "build=$build tests=$tests demo_without=$pass_without demo_with=$fail_with" | tee -a $log
 if [ $build -eq 0 ] && [ $tests -eq 0 ] && [ $pass_without -eq 0 ] && [ $fail_with -ne 0 ]; then
   mkdir -p /verif/seeded/$name && cp $seed/* /verif/seeded/$name/
